@@ -110,6 +110,32 @@ def run(ctx):
             elif tuple((i + 1, c) for i, c in zip(ev["idx"], ev["cnt"])) not in allowed:
                 ctx.violation("subsample/not_a_reachable_outcome", f"subsample({list(counts)}, {n}) = {ev['idx']}, {ev['cnt']} is not a terminal state of the drawing machine", rp)
         ctx.traces += 1
+    # ---- downsample behaviours of the model (every m <= MaxItems, every maxseqs 0..MaxItems and None) on lists, tuples, arrays, tables
+    dgroups = {}
+    for doc in res.printed:
+        if doc.get("kind") == "downsample":
+            dgroups.setdefault((doc["m"], doc["want"]), set()).add(tuple(doc["kept"]))
+    maxitems = max((m for m, _ in dgroups), default=0)
+    for (m, want), allowed in sorted(dgroups.items()):
+        vals = [f"CAS{i}F" for i in range(m)]
+        for form in ("list", "tuple", "ndarray", "table"):
+            data = {"list": list(vals), "tuple": tuple(vals), "ndarray": np.array(vals, dtype=object),
+                    "table": pd.DataFrame(dict(CDR3B=vals, pos=list(range(m))), index=[f"r{i % 2}" for i in range(m)])}[form]
+            for arg in ([None] if want > maxitems else [want, np.int64(want)]):
+                nseed += 1
+                np.random.seed(nseed)
+                rp = dict(kind="downsample", m=m, maxseqs=None if arg is None else int(arg), form=form, seed=nseed)
+                ctx.case(dict(fn="downsample", m=m, maxseqs=rp["maxseqs"], form=form), nontrivial=arg is not None and m > want)
+                try:
+                    ret = prs.downsample(data, arg)
+                    kept = tuple(int(p) + 1 for p in ret["pos"]) if form == "table" else tuple(vals.index(x) + 1 for x in list(ret))
+                except Exception as e:      # noqa: BLE001
+                    ctx.violation("downsample/raised", f"downsample({form} of {m}, maxseqs={arg!r}) raised {type(e).__name__}: {e}"[:300], rp)
+                    continue
+                if kept not in allowed:
+                    ctx.violation("downsample/not_a_terminal_state", f"downsample({form} of {m} elements, maxseqs={arg!r}) kept positions {kept}: the model keeps "
+                                  f"{'everything' if m <= want else f'exactly {want} distinct positions'}", rp)
+        ctx.traces += 1
     # uniformity on a few inputs with the model's exact weights
     for (counts, n) in ([((2, 1, 1), 2)] if q else [((2, 1, 1), 2), ((3, 2, 1), 3), ((1, 1, 1), 1), ((3, 3), 4)]):
         docs = groups.get((counts, n))
